@@ -9,6 +9,17 @@ Theorem gen_callsites_markers_conform : forallb (site_ok pinned) GenCallsites.ca
 Proof. vm_compute. reflexivity. Qed.
 Print Assumptions gen_callsites_markers_conform.
 
+(* every `parquet_thrift.<Enum>.<NAME>` the files mention is a declared member; an enum-typed field given such a
+   constant gets a member of its own declared enum; an integer literal given to an enum-typed field is in range *)
+Theorem gen_enum_uses_declared :
+  forallb (fun u => enum_member pinned (fst u) (snd u)) GenCallsites.enum_uses = true.
+Proof. vm_compute. reflexivity. Qed.
+Print Assumptions gen_enum_uses_declared.
+
+Theorem gen_callsites_enums_in_range : forallb (site_enums_ok pinned) GenCallsites.callsites = true.
+Proof. vm_compute. reflexivity. Qed.
+Print Assumptions gen_callsites_enums_in_range.
+
 Example gen_callsites_nonvacuous :
   Nat.leb 30 (List.length (filter (site_judged pinned) GenCallsites.callsites)) = true.
 Proof. vm_compute. reflexivity. Qed.
